@@ -672,7 +672,14 @@ func (c *Codec) Decode(src []byte) (dst framer.Frame, err error) {
 // DecodeStream decodes a frame from the given io reader.
 func (c *Codec) DecodeStream(reader io.Reader) (framer.Frame, error) {
 	c.processUpdates()
-	c.panicIfNotUpdated("Decode")
+	// Unlike Encode, Decode is fed by the network: a peer that sends a frame before the
+	// channel set was negotiated must get an error, not crash the process.
+	if c.mu.seqNum < 1 {
+		return framer.Frame{}, errors.Wrap(
+			validate.ErrValidation,
+			"[framer.codec] - received a frame before the codec was updated with a set of channels",
+		)
+	}
 	c.reader.Reset(reader)
 
 	var (
